@@ -1,0 +1,8 @@
+//go:build !verif
+// +build !verif
+
+package math
+
+import "math/big"
+
+func verifDraw(string, *big.Int) {}
